@@ -4,14 +4,17 @@ import pipeline
 import talgen
 
 PID = 'C08'
-PROOF_MODULES = ['ChamProofs.Props.C08']
+PROOF_MODULES = ['ChamProofs.Props.C08', 'ChamProofs.Props.C05Eval']
 THEOREMS = ['ChamVerif.C08_romanTable_tie', 'ChamVerif.C08_roman_value', 'ChamVerif.C08_roman_text',
-            'ChamVerif.C08_roman_canonical_lt_4000', 'ChamVerif.C08_letter', 'ChamVerif.C08_index', 'ChamVerif.C08_attrs']
+            'ChamVerif.C08_roman_canonical_lt_4000', 'ChamVerif.C08_letter', 'ChamVerif.C08_index', 'ChamVerif.C08_attrs',
+            'ChamVerif.C08_empty_renders_nothing', 'ChamVerif.C05_repeat_restores']
 LEVEL_TEXT = ('Proved in Lean for every position and every length: index = i, number = i + 1, length, start, end at iteration i '
               '(C08_index, C08_attrs); letter/Letter is the base-26 positional spelling of the index with at least one digit '
               '(C08_letter, induction over the divmod loop); the roman numerals emitted are exactly the greedy decomposition over the table '
               'read from RepeatItem.Roman today and denote index + 1 for every n (C08_romanTable_tie, C08_roman_value, C08_roman_text), '
-              'canonical below 4000 (kernel evaluation over the complete range). Iteration, unpacking, one-shot iterators, nesting and the '
+              'canonical below 4000 (kernel evaluation over the complete range). On the interpreter: a repeat over None or an empty sequence '
+              'renders nothing and does not evaluate its body (C08_empty_renders_nothing), and after any number of iterations the loop variable is '
+              'bound to what it was bound to before (C05_repeat_restores, whole-interpreter). Iteration of non-empty sequences, unpacking, one-shot iterators, nesting and the '
               'line-break separator are modelled by the node interpreter, tied to the code by component and end-to-end correspondence, '
               'and judged by an independent constructive oracle.')
 LEVEL_NOTE = ('Trusted: Lean kernel; that RepeatItem.index equals consumed - 1 for the shared list iterator (length_hint), validated by the '
@@ -120,7 +123,8 @@ def constructive(ctx, count):
         attrs = rng.sample(ATTRS, rng.randint(1, 4))
         indent = rng.choice(['', '  ', '    ', ' '])
         wrap = rng.random() < 0.7
-        text = rng.choice(['\n' + indent, indent, 'x\n' + indent, ''])
+        # the text before the element may itself hold an interpolation (it is still the text token the indentation is taken from)
+        text = rng.choice(['\n' + indent, indent, 'x\n' + indent, '', 'Items of ${who}:\n' + indent, '${who}\n' + indent, '\n' + indent + '${who} '])
         lead = ('<ul>' if wrap else '') + text
         body = ':'.join('${repeat.it.%s}' % a for a in attrs) + '=${it}'
         src = lead + '<li tal:repeat="it xs">' + body + '</li>' + ('\n</ul>' if wrap else '\n')
@@ -132,7 +136,7 @@ def constructive(ctx, count):
         for i, it in enumerate(items):
             ra = ref_attrs(i, len(items))
             rows.append('<li>' + ':'.join(ra[a] for a in attrs) + '=' + it + '</li>')
-        exp = lead + sep.join(rows) + ('\n</ul>' if wrap else '\n')
+        exp = lead.replace('${who}', 'bob') + sep.join(rows) + ('\n</ul>' if wrap else '\n')
         nontrivial = (len(items) >= 2) or ('\n' in lead)
         out.append((src, kind, n, exp, nontrivial))
     # nested loops, same or distinct variable names: separators of both loops (the whitespace is that of the
@@ -167,7 +171,7 @@ def run_constructive(case):
         if tag == 'nested2':
             return PageTemplate(src)(rows=list(range(n1)), cols=['c%d' % j for j in range(n2)])
         return PageTemplate(src)(rows=list(range(n1)), cols=[str(j) for j in range(n2)])
-    return PageTemplate(src)(xs=build_iterable(kind, n))
+    return PageTemplate(src)(xs=build_iterable(kind, n), who='bob')
 
 
 def correspondence(ctx):
